@@ -40,3 +40,88 @@ package pongo2
 //@   requires 0 <= i && i < len(sk) && 0 <= j && j < len(sk)
 //@ func (valuesList).Less
 //@   requires 0 <= i && i < len(vl) && 0 <= j && j < len(vl)
+
+// ---- template cache (C05, C20) ----
+//@ guarded TemplateSet.templateCache by TemplateSet.templateCacheMutex
+//@ func (*TemplateSet).FromCache
+//@   flag singlecs
+//@ func (*TemplateSet).CleanCache
+//@   flag singlecs
+
+// ---- library facts (assumed) ----
+//@ extern fmt.Errorf(format, a) (r0)
+//@   ensures r0 != nil
+//@ extern errors.New(text) (r0)
+//@   ensures r0 != nil
+
+// ---- sandbox (C03) ----
+//@ monotone TemplateSet.firstTemplateCreated
+//@ writers {C03} M|Str|Bool|mapLstringRbool (*TemplateSet).BanTag (*TemplateSet).BanFilter
+//@ writers {C03} F|TemplateSet|bannedTags NewSet
+//@ writers {C03} F|TemplateSet|bannedFilters NewSet
+//@ type TemplateSet
+//@   invariant {C03} self.bannedTags != self.bannedFilters
+
+//@ func (*TemplateSet).BanTag
+//@   ensures {C03} @refuse (r0 != nil) <==> old(!has(tags, name) || set.firstTemplateCreated || has(set.bannedTags, name))
+//@   ensures {C03} @error-changes-nothing r0 != nil ==> mapdom(set.bannedTags) == old(mapdom(set.bannedTags))
+//@   ensures {C03} @adds-exactly-name r0 == nil ==> mapdom(set.bannedTags) == store(old(mapdom(set.bannedTags)), name, true)
+//@   ensures {C03} @other-list-untouched mapdom(set.bannedFilters) == old(mapdom(set.bannedFilters))
+//@   ensures {C03} @same-maps set.bannedTags == old(set.bannedTags) && set.bannedFilters == old(set.bannedFilters) && set.firstTemplateCreated == old(set.firstTemplateCreated)
+//@ func (*TemplateSet).BanFilter
+//@   ensures {C03} @refuse (r0 != nil) <==> old(!has(filters, name) || set.firstTemplateCreated || has(set.bannedFilters, name))
+//@   ensures {C03} @error-changes-nothing r0 != nil ==> mapdom(set.bannedFilters) == old(mapdom(set.bannedFilters))
+//@   ensures {C03} @adds-exactly-name r0 == nil ==> mapdom(set.bannedFilters) == store(old(mapdom(set.bannedFilters)), name, true)
+//@   ensures {C03} @other-list-untouched mapdom(set.bannedTags) == old(mapdom(set.bannedTags))
+//@   ensures {C03} @same-maps set.bannedTags == old(set.bannedTags) && set.bannedFilters == old(set.bannedFilters) && set.firstTemplateCreated == old(set.firstTemplateCreated)
+
+// every way of creating a template freezes the ban lists
+//@ func (*TemplateSet).FromString
+//@   ensures {C03} @freezes set.firstTemplateCreated
+//@ func (*TemplateSet).FromBytes
+//@   ensures {C03} @freezes set.firstTemplateCreated
+//@ func (*TemplateSet).FromFile
+//@   ensures {C03} @freezes set.firstTemplateCreated
+//@ func (*TemplateSet).RenderTemplateString
+//@   flag maypanic
+//@   ensures {C03} @freezes set.firstTemplateCreated
+//@ func (*TemplateSet).RenderTemplateBytes
+//@   flag maypanic
+//@   ensures {C03} @freezes set.firstTemplateCreated
+//@ func (*TemplateSet).RenderTemplateFile
+//@   flag maypanic
+//@   ensures {C03} @freezes set.firstTemplateCreated
+
+// the ban check dominates the call of the tag's parser; a tag parser is only entered for a registered, not banned tag
+//@ functype TagParser(doc, start, arguments) (r0, r1)
+//@   requires {C03} @not-banned !has(doc.template.set.bannedTags, start.Val)
+//@   requires {C03,C19} @registered has(tags, start.Val)
+
+// filters in expressions: parseFilter yields an existing filter; the chain holds only existing, not banned filters
+//@ func (*Parser).parseFilter
+//@   ensures {C03,C19} @exists r1 == nil ==> r0 != nil && fresh(r0) && has(filters, r0.name) && r0.filterFunc == filters[r0.name]
+//@   ensures {C03,C19} @error-no-node r1 != nil ==> r0 == nil
+//@ func (*Parser).parseVariableOrLiteralWithFilter
+//@   at append[*filterCall] requires {C03,C19} @approved elem != nil && !has(p.template.set.bannedFilters, elem.name) && has(filters, elem.name) && elem.filterFunc == filters[elem.name]
+// nothing else ever writes a filter chain, and chain elements are never overwritten (append-only element type)
+//@ writers {C03,C19} F|nodeFilteredVariable|filterChain (*Parser).parseVariableOrLiteralWithFilter
+//@ writers {C03,C19} F|filterCall|name (*Parser).parseFilter
+//@ writers {C03,C19} F|filterCall|filterFunc (*Parser).parseFilter
+
+// sub-templates are compiled through the set of the referring template (C03: same ban lists; C11: same loaders)
+//@ func tagIncludeParser
+//@   at (*TemplateSet).FromFile requires {C03,C11} @same-set set == doc.template.set
+//@ func tagExtendsParser
+//@   at (*TemplateSet).FromFile requires {C03,C11} @same-set set == doc.template.set
+//@ func tagImportParser
+//@   at (*TemplateSet).FromFile requires {C03,C11} @same-set set == doc.template.set
+//@ func tagSSIParser
+//@   at (*TemplateSet).FromFile requires {C03,C11} @same-set set == doc.template.set
+//@ func (*tagIncludeNode).Execute
+//@   at (*TemplateSet).FromFile requires {C03,C11} @same-set set == ctx.template.set
+
+// the filter tag: every filter named in the tag exists and is not banned
+//@ func tagFilterParser
+//@   at append[*nodeFilterCall] requires {C03,C19} @approved elem != nil && !has(doc.template.set.bannedFilters, elem.name) && has(filters, elem.name)
+//@ writers {C03,C19} F|tagFilterNode|filterChain tagFilterParser
+//@ writers {C03,C19} F|nodeFilterCall|name tagFilterParser
